@@ -99,6 +99,8 @@ def gen_inputs(h, n, seed, case):
     while True:     # the consumer stops after n accepted cases or the attempt budget
         d = {k: dom.sample(rng) for k, dom in doms.items()}
         d.update(fixed)
+        if h.sampler is not None:
+            d.update(h.sampler(rng, dict(fixed)))
         yield d, False
 
 
@@ -114,7 +116,7 @@ def cmd_sample(hid, n, seed, fixed_json):
     for inputs, exh in gen_inputs(h, n, seed, fixed):
         exhaustive = exh
         attempts += 1
-        if not exh and (npass >= n or attempts > 400 * n):
+        if not exh and (npass >= n or attempts > 60 * n):
             break
         st, detail = run_one(h, inputs)
         if first is None and st == "pass":
